@@ -281,9 +281,14 @@ def judgePlan (rest out : List String) : String :=
           match denote db p0 [], denote db p1 [] with
           | some ra, some rb =>
             if renderSorted ra == renderSorted rb then okWith p0
-            else if anyAmbiguous db p0 [] then
-              "known orderby-limit-tiebreak-pruning rows differ only through the tie-break of an ambiguous ORDER BY … LIMIT cut"
-            else "bad optimized-plan-computes-different-rows"
+            else
+              -- known only when the difference is exactly the one the modelled tie-break predicts
+              let predicted := match optimize fuelBound p0 with
+                | .ok q => (denote db q []).map renderSorted
+                | _ => none
+              if anyAmbiguous db p0 [] && predicted == some (renderSorted rb) then
+                "known orderby-limit-tiebreak-pruning rows differ only through the tie-break of an ambiguous ORDER BY … LIMIT cut"
+              else "bad optimized-plan-computes-different-rows"
           | some _, none => "bad optimized-plan-fails"
           | none, _ => "ok unmodelled"
         | _, _ => "ok unparsed"
@@ -310,7 +315,17 @@ def judge (toks : List String) (out : List String) : String :=
         else
           match parseQ rest with
           | some q =>
-            if anyAmbiguous q.db q.p0 [] || cutAmbiguous [] q.top.keys q.top.mults q.top.limit ((denote q.db q.p0 []).getD []) then
+            -- known only when an ORDER BY … LIMIT cut inside the plan is ambiguous AND both runs print exactly what the
+            -- model of the engine's tie-break predicts for them
+            let ma := runTop q.db q.top q.p0
+            let mb := match optimize fuelBound q.p0 with
+              | .ok p1 => runTop q.db q.top p1
+              | _ => "?"
+            let sameAs (m : String) (rows : List String) : Bool :=
+              match normRows (tokens m) with
+              | some mr => mr == rows
+              | none => false
+            if anyAmbiguous q.db q.p0 [] && sameAs ma ra && sameAs mb rb then
               "known orderby-limit-tiebreak-pruning rows differ only through the tie-break of an ambiguous ORDER BY … LIMIT cut"
             else "bad optimized-result-differs"
           | none => "bad unparsable-op"
